@@ -233,8 +233,12 @@ def gen_cart(rng):
     u = rng.random()
     tiny = rng.choice([2.0 ** -30, 2.0 ** -60, 2.0 ** -200])
     z0 = rng.choice([0.0, -0.0])
-    if u < 0.40:
+    if u < 0.34:
         return [dy(rng, -8, 8) for _ in range(3)]
+    if u < 0.40:   # on the polar axis / on the negative x axis (the arctan2 cut), zeros of either sign
+        if rng.random() < 0.5:
+            return [rng.choice([0.0, -0.0]), rng.choice([0.0, -0.0]), dy(rng, -8, 8) or 1.0]
+        return [-abs(dy(rng, -8, 8) or 1.0), rng.choice([0.0, -0.0]), dy(rng, -8, 8)]
     if u < 0.55:   # on an axis / in a coordinate plane, with signed zeros
         p = [dy(rng, -8, 8) for _ in range(3)]
         for i in rng.sample([0, 1, 2], rng.choice([1, 2])):
